@@ -83,7 +83,13 @@ func C07(env *Env) {
 	}
 	env.c07StatusDecoder()
 	env.c07HexDecoder()
-	env.decodedReadOnly("C07/DECODED-RO")
+	env.decodedReadOnly("C07/DECODED-RO", "EnclaveIdentity")
+	// the QE report fields compared above are the signed ones only if the
+	// serialiser's narrowing conversions are range-gated by the validity predicate
+	if ser := env.fn("abi", "EnclaveReportToAbiBytes"); ser != nil {
+		env.narrowingCovered(env.engine(), ser, "C07", "EnclaveReportToAbiBytes")
+	}
+	r.Floor("C07/NARROW", 2)
 	r.Floor("C07/ID", 14)
 	r.Floor("C07/SEL", 2)
 	r.Floor("C07/VERDICT", 2)
@@ -217,7 +223,9 @@ var readOnlyCallees = map[string]bool{
 // passed only to confirmed read-only library functions (a sort, an in-place
 // normalisation or any other mutator would change "listed order" or values
 // after the signature was checked over the original bytes).
-func (env *Env) decodedReadOnly(rule string) {
+// doc selects the collateral document: "TcbInfo" or "EnclaveIdentity" (a value
+// whose term names neither belongs to both).
+func (env *Env) decodedReadOnly(rule, doc string) {
 	r := env.R
 	e := env.engine()
 	isDecoded := func(t *flow.Term) bool {
@@ -253,6 +261,9 @@ func (env *Env) decodedReadOnly(rule string) {
 					}
 					if !isDecoded(t) {
 						continue
+					}
+					if ts := t.String(); doc != "" && !strings.Contains(ts, doc) && (strings.Contains(ts, "TcbInfo") || strings.Contains(ts, "EnclaveIdentity")) {
+						continue // the other document's values
 					}
 					// varargs of formatting calls arrive as slices of interface{}
 					name := cal.String()
